@@ -76,8 +76,8 @@ def compare(ctx, case, ga, gb, where: str) -> bool:
 
 def run_case(ctx, case) -> None:
     n, values = case["n"], case["values"]
-    ga = sut.new_game(n, repo_bounds.BOUNDS["superadditive"])
-    gb = sut.new_game(n, repo_bounds.BOUNDS["superadditive_cached"])
+    ga = sut.object_for_case(ctx, case, "superadditive", p_reuse=1.0 if case.get("_reuse") else 0.0)
+    gb = sut.object_for_case(ctx, case, "superadditive_cached", p_reuse=1.0 if case.get("_reuse") else 0.0)
     try:
         step = [0]
         # identical histories on both objects; compare at every intermediate compute as well
@@ -160,7 +160,7 @@ def run(ctx) -> None:
         kind = rng.choice(["fresh", "fresh", "walk", "dirty"]) if n <= 6 else "fresh"
         ops = boundcore.make_history(rng, n, K, kind)
         run_case(ctx, {"n": n, "family": fam, "values": values, "exact": exact, "K": K, "ops": ops,
-                       "repeats": rng.randint(1, 3), "kind": kind})
+                       "repeats": rng.randint(1, 3), "kind": kind, "_reuse": rng.random() < 0.5})
         ctx.count(f"n{n}")
         if last_n is not None and last_n != n:
             ctx.count("interleaved_jobs")
